@@ -91,8 +91,10 @@ def ovm_lib(flavor="asan"):
     with flock("ovm-" + flavor):
         if lib.exists():
             return lib, flags
-        # drop stale builds of this flavour (disk is limited)
-        for old in BUILD.glob("ovm-%s-*" % flavor):
+        # drop stale builds of this flavour (disk is limited), keeping the few most recent:
+        # several trees (scratch copies via VERIF_REPO) may be in use at the same time
+        olds = sorted(BUILD.glob("ovm-%s-*" % flavor), key=lambda d: d.stat().st_mtime, reverse=True)
+        for old in olds[5:]:
             shutil.rmtree(old, ignore_errors=True)
         obj = out / "obj"
         obj.mkdir(parents=True, exist_ok=True)
@@ -124,8 +126,12 @@ def driver(name, sources=None, flavor="asan", extra=(), libs=()):
         if exe.exists():
             return exe
         exe.parent.mkdir(parents=True, exist_ok=True)
-        for old in exe.parent.glob("%s-%s-*" % (name, flavor)):
-            old.unlink()
+        olds = sorted(exe.parent.glob("%s-%s-*" % (name, flavor)), key=lambda d: d.stat().st_mtime, reverse=True)
+        for old in olds[5:]:
+            try:
+                old.unlink()
+            except OSError:
+                pass
         log("[build] driver %s (%s)" % (name, flavor))
         tmp = exe.with_suffix(".tmp")
         run(_cxx() + flags + ["-w", "-I" + str(HARNESS)] + list(extra) + [str(s) for s in srcs]
